@@ -396,6 +396,20 @@ def binop(it, op, a, b, aug=False):
                 if b.lo <= 0 <= b.hi:
                     it.oblige(b.e != 0, "division by zero", "arith")
                 return SFloatTab([(b.e == v, a / v) for v in range(b.lo, b.hi + 1) if v != 0])
+            if isinstance(a, SInt) and None not in (a.lo, a.hi) and (not isinstance(b, SInt) or None not in (b.lo, b.hi)):
+                # int / int -> the exact IEEE quotient of every pair of values (regime (i): enumerated by Python)
+                bl, bh = (b.lo, b.hi) if isinstance(b, SInt) else (b, b)
+                if (a.hi - a.lo + 1) * (bh - bl + 1) <= 40000:
+                    if bl <= 0 <= bh:
+                        it.oblige((b.e if isinstance(b, SInt) else z3.IntVal(b)) != 0, "division by zero", "arith")
+                    ents = []
+                    for j in range(bl, bh + 1):
+                        if j == 0:
+                            continue
+                        cj = (b.e == j) if isinstance(b, SInt) else None
+                        for i in range(a.lo, a.hi + 1):
+                            ents.append((z3.And(a.e == i, cj) if cj is not None else (a.e == i), i / j))
+                    return SFloatTab(ents)
             raise Unsupported("true division with a symbolic operand")
     raise Unsupported("binary %s on %r and %r" % (t.__name__, a, b))
 
